@@ -109,3 +109,43 @@ CONTRACTS["model:Model.update_pars#final_clip"] = dict(
          "implies(par.derivative and ti < len(self.t) - 1 and par.limits is not None, par.vals[ti + 1] == min(max(old(par.vals[ti]) + par._dx * self.dt, par.limits[0]), par.limits[1]))"),
     ],
     frame_props=["C06"], defined_props=["C06"])
+
+
+# ---- Model.build, the loop that inserts databook values: value = interpolated databook series x meta factor x population factor,
+# clipped into the limits (body of `for par in pars:` that reads cascade_par.meta_y_factor)
+def _prep_databook(env):
+    """replay: a real collaborator object standing for the ParameterSet entry, answering with the ghost values"""
+    import numpy as np
+
+    par = env["par"]
+    par.id = ("pop", "p")
+    par.pop = _NS()
+    par.pop.name = "pop"
+    par.fcn_str = "f" if env.get("has_fcn") else None
+    par.preallocate = lambda t, dt: None
+    cp = _NS()
+    cp.name = "p"
+    cp.meta_y_factor = env.get("meta", 1.0)
+    cp.y_factor = {"pop": env.get("yf", 1.0)} if env.get("has_y") else {}
+    cp.skip_function = {"pop": None} if env.get("has_skip") else {}
+    cp.has_values = lambda pop, v=bool(env.get("has_values")): v
+    series = np.array(env.get("series", []), dtype=float)
+    cp.interpolate = lambda tvec=None, pop_name=None: series.copy()
+    env["cascade_par"] = cp
+
+
+CONTRACTS["model:Model.build#databook_values"] = dict(
+    replay_prepare=_prep_databook,
+    schema=schema, fragment={"iter": "pars", "body_contains": "cascade_par.meta_y_factor"},
+    params={"par": "obj:Parameter", "series": "arr1", "parset": "const:None"},
+    ghost_params={"meta": "real", "has_y": "bool", "yf": "real", "has_skip": "bool", "has_fcn": "bool", "has_values": "bool", "nothing": "const:None"},
+    stubs={"cascade_par.meta_y_factor": "meta", "par.pop.name in cascade_par.y_factor": "has_y", "cascade_par.y_factor[par.pop.name]": "yf",
+           "par.pop.name in cascade_par.skip_function": "has_skip", "par.fcn_str": "has_fcn", "cascade_par.has_values(par.pop.name)": "has_values",
+           "cascade_par.interpolate(tvec=self.t, pop_name=par.pop.name)": "series", "par.preallocate(self.t, self.dt)": "nothing"},
+    requires=["not has_skip", "not (has_fcn and par._precompute)", "has_values", _lim_ok],
+    ensures=[
+        ("C06.scale_factor_is_the_product_of_both_calibration_factors", "par.scale_factor == (meta * yf if has_y else meta)"),
+        ("C06.databook_value_times_calibration_factors_clipped",
+         "len(par.vals) == len(series) and all((par.vals[i] == min(max(series[i] * par.scale_factor, par.limits[0]), par.limits[1])) if par.limits is not None else (par.vals[i] == series[i] * par.scale_factor) for i in range(len(series)))"),
+    ],
+    defined_props=["C06"])
